@@ -141,7 +141,8 @@ def execute(ctx, case):
         try:
             got = call(db, q, ob)
         except Exception as ex:
-            contracts.drain()
+            for v in contracts.drain():
+                report(ctx, case, "contract", v)
             msg = repr(ex)[:200]
             if label == "str" and cols == ["length"] and "no such column: length" in msg:
                 report(ctx, case, "length-str", {
